@@ -194,37 +194,43 @@ theorem inBodyO_W (regular : Bool) (data : Bytes) {st : InLoopO} (F : Nat → Na
     W (inBodyO regular data st).gh
       (fun id => cnt id (inBodyO regular data st).sb + cnt id (inBodyO regular data st).rb +
         cnt id (inBodyO regular data st).rq + F id) := by
-  have hu : W (unaO (rd32 data 16) st.sb st.gh).g
-      (fun id => cnt id (unaO (rd32 data 16) st.sb st.gh).l + (cnt id st.rb + cnt id st.rq + F id)) :=
-    unaO_W _ _ _ _ (h.congr (fun id => by omega))
+  have hu : W (dropAckedO (unaO (rd32 data 16) st.sb st.gh).l (unaO (rd32 data 16) st.sb st.gh).g).g
+      (fun id => cnt id (dropAckedO (unaO (rd32 data 16) st.sb st.gh).l (unaO (rd32 data 16) st.sb st.gh).g).l +
+        (cnt id st.rb + cnt id st.rq + F id)) :=
+    dropAckedO_W _ _ _ (unaO_W _ _ _ _ (h.congr (fun id => by omega)))
+  have hue := unaShrinkO_er regular (rd16 data 6) (rd32 data 16) hs.sb
   unfold inBodyO
   simp only []
+  generalize dropAckedO (unaO (rd32 data 16) st.sb st.gh).l (unaO (rd32 data 16) st.sb st.gh).g = u at hu hue ⊢
   split
   · -- ACK
     rename_i hc
-    obtain ⟨_, s2, _, _⟩ := inSt1_queues regular (rd16 data 6) (rd32 data 16) st.m
     have hb : inBody regular data st.m = inAck (inSt1 regular (rd16 data 6) (rd32 data 16) st.m) (rd32 data 12) (rd32 data 8) := by
       unfold inBody; simp only []; rw [if_pos hc]
     obtain ⟨_, _, _, a4⟩ := inAck_queues (inSt1 regular (rd16 data 6) (rd32 data 16) st.m) (rd32 data 12) (rd32 data 8)
-    have hl : (inBody regular data st.m).k.snd_buf.length = (unaO (rd32 data 16) st.sb st.gh).l.length := by
-      rw [hb, a4, s2, hs.sb, ← unaO_er _ _ st.gh, er_length]
-    split
-    · refine hu.congr (fun id => ?_)
-      simp only []
-      rw [cnt_reattach id _ _ hl]; omega
-    · have ha := ackLoopO_W (rd32 data 12) _ _ _ hu
-      refine ha.congr (fun id => ?_)
-      simp only []
-      rw [cnt_reattach id _ _ (by rw [hl, ← er_length (ackLoopO _ _ _).l, ackLoopO_er, ackLoop_length, er_length])]
-      omega
+    have ha0 : W (if itimediff (rd32 data 12) (inSt1 regular (rd16 data 6) (rd32 data 16) st.m).k.snd_una < 0 ∨
+          itimediff (rd32 data 12) (inSt1 regular (rd16 data 6) (rd32 data 16) st.m).k.snd_nxt ≥ 0
+          then u else ackLoopO (rd32 data 12) u.l u.g).g
+        (fun id => cnt id (if itimediff (rd32 data 12) (inSt1 regular (rd16 data 6) (rd32 data 16) st.m).k.snd_una < 0 ∨
+          itimediff (rd32 data 12) (inSt1 regular (rd16 data 6) (rd32 data 16) st.m).k.snd_nxt ≥ 0
+          then u else ackLoopO (rd32 data 12) u.l u.g).l + (cnt id st.rb + cnt id st.rq + F id)) := by
+      split
+      · exact hu
+      · exact ackLoopO_W (rd32 data 12) _ _ _ hu
+    have hl := congrArg List.length (ackO_er (inSt1 regular (rd16 data 6) (rd32 data 16) st.m).k (rd32 data 12) u hue)
+    rw [er_length] at hl
+    refine (dropAckedO_W _ _ _ ha0).congr (fun id => ?_)
+    simp only []
+    rw [cnt_reattach id _ _ (by rw [hb, a4, hl])]
+    omega
   · split
     · split
       · have hd := parseDataO_W (inSt1 regular (rd16 data 6) (rd32 data 16) st.m).k
           { conv := rd32 data 0, cmd := BitVec.ofNat 8 (byteAt data 4), frg := BitVec.ofNat 8 (byteAt data 5), wnd := rd16 data 6,
             ts := rd32 data 8, sn := rd32 data 12, una := rd32 data 16,
             data := (data.drop IKCP_OVERHEAD).take (rd32 data 20).toNat }
-          st.rb st.rq (unaO (rd32 data 16) st.sb st.gh).g
-          (fun id => cnt id (unaO (rd32 data 16) st.sb st.gh).l + F id) (hu.congr (fun id => by omega))
+          st.rb st.rq u.g
+          (fun id => cnt id u.l + F id) (hu.congr (fun id => by omega))
         exact hd.congr (fun id => by simp only []; omega)
       · exact hu.congr (fun id => by simp only []; omega)
     · exact hu.congr (fun id => by simp only []; omega)
